@@ -7,7 +7,8 @@ Model of Laythe's class machinery (C03).
 * §3 `Store`: classes referring to each other (`super_class`, `meta_class`), `meta_from_super`,
   `with_inheritance`, and the VM's `op_class / op_inherit / op_field / op_method / op_static_method`.
 * §4 instances: `AllocateObj<Instance> for ObjRef<Class>`, `Instance::{get_field, set_field}`.
-* §5 the compiler's field numbering: `record_field`, `find_known_field`, `property_get/property_set`.
+* §5 the compiler's field numbering: `record_field`, `find_known_field`, `property_get/property_set`;
+  which class a declaration inherits from: `Compiler::class`, `global_get`, `is_global` (`superLoad`).
 * §6 the VM's call paths with the inline caches off (cache transparency is C13):
   `op_invoke`, `op_get_prop_by_name`, `op_set_prop_by_name`, `op_get_prop`, `op_set_prop`, `op_call`,
   `resolve_call`, `call_class`, `call_method`, `bind_method`, `op_get_super`, `op_super_invoke`.
@@ -289,6 +290,51 @@ def propertyAccess (ca : Option ClassAttrs) (f : String) : Access :=
     | some pos => if ca.explicitSuper then .byName f else .fixed pos
     | none => .byName f
   | none => .byName f
+
+/-! ### which class a declaration inherits from (`Compiler::class`, `global_get`, `is_global`;
+`Resolver::class`, `resolve_global`) -/
+
+/-- what the compiler knows about names at a class declaration: `locals` are the names in
+`self.locals` of the compiler and of every enclosing compiler (parameters, `let`s, local functions and
+classes, catch variables — innermost first, but only membership matters); `declared` are the names the
+program itself declares at module level (every symbol of the module table whose state is not
+`GlobalInitialized`). -/
+structure NameScope where
+  locals : List String := []
+  declared : List String := []
+  deriving Repr, DecidableEq, Inhabited
+
+/-- `Compiler::is_global`: the name denotes this module's copy of a symbol of the global module — no
+local of that name in any enclosing function and no declaration of the program at module level.
+(The resolver's `resolve_global` has put the copy into the module table in exactly this case.) -/
+def isGlobal (sc : NameScope) (name : String) : Bool :=
+  !sc.locals.contains name && !sc.declared.contains name
+
+/-- the instruction that pushes the superclass -/
+inductive SuperLoad where
+  | lexical (name : String)    -- `variable_get(name)`: an explicit superclass is an ordinary variable read
+  | moduleCopy                 -- `GetModSym(slot of "Object")`: the copy the module prologue loaded from the global module
+  | loadGlobal                 -- `LoadGlobal("Object")`: read from the global module at the declaration
+  deriving Repr, DecidableEq
+
+/-- `Compiler::class`: an explicit superclass is resolved lexically; the implicit one is the symbol
+`Object` *of the global module* (`global_get`), through the module's copy when the program does not
+use the name itself, otherwise straight from the global module. -/
+def superLoad (sc : NameScope) : Option String → SuperLoad
+  | some p => .lexical p
+  | none => if isGlobal sc "Object" then .moduleCopy else .loadGlobal
+
+/-- the run-time values the three instructions read (class references) -/
+structure SuperEnv where
+  globalObject : Nat                  -- the symbol `Object` of the global module: the built-in class
+  moduleObject : Option Nat           -- this module's symbol `Object` while its state is `GlobalInitialized`
+  lexical : String → Option Nat       -- what an ordinary read of a name gives where the class is declared
+
+/-- the value `op_inherit` finds under the new class -/
+def superValue (env : SuperEnv) : SuperLoad → Option Nat
+  | .lexical p => env.lexical p
+  | .moduleCopy => env.moduleObject
+  | .loadGlobal => some env.globalObject
 
 /-- what `Compiler::class` emits for the body of one class, as store operations on the class on top
 of the stack: `Inherit`, `Method(init)`, `Field*` (emit_fields), `Method*`, `StaticMethod*`. -/
